@@ -353,7 +353,9 @@ def _param(L, flavour):
     p.update(slice_dict(L.next(), 'param3'))
     # PARAM.4: default initial conditions, four to a record; continuation records until a blank record
     # or the next keyword
-    inc = _trim(slice_record(L.next(), 'param4'))
+    # (positions count: a blank field inside the list is an absent value at that position; only the
+    # blanks after the last value are no values)
+    inc = slice_record(L.next(), 'param4')
     while L.more():
         nxt = L.peek()
         if not nxt.strip():
@@ -361,8 +363,8 @@ def _param(L, flavour):
             break
         if _is_keyword_line(nxt):
             break
-        inc += _trim(slice_record(L.next(), 'param4'))
-    p['default_incons'] = inc
+        inc += slice_record(L.next(), 'param4')
+    p['default_incons'] = _trim(inc)
     return p
 
 
